@@ -30,17 +30,37 @@ ASSUMPTIONS = [
 ]
 
 
+@st.composite
+def strategy_(draw, tier):
+    spec = draw(hier.wirings())
+    # partial updates: a process need not return every variable of a port
+    # (nor the same variables for every child of a glob port)
+    omit = []
+    if draw(st.booleans()):
+        for i, p in enumerate(spec['procs']):
+            for j in range(len(p['W'])):
+                if draw(st.integers(0, 2)) == 0:
+                    omit.append([i, j])
+    spec['omit'] = omit
+    return spec
+
+
 def strategy(tier):
-    return hier.wirings()
+    return strategy_(tier)
 
 
 def build(spec, ctx, increments=True):
     processes, topology = {}, {}
     incs = []           # (proc, view, node, inc)
     bit = 0
-    for p in spec['procs']:
+    omit = {tuple(o) for o in spec.get('omit') or []}
+    for i, p in enumerate(spec['procs']):
         update = {}
-        for view, node in p['W']:
+        for j, (view, node) in enumerate(p['W']):
+            if (i, j) in omit:
+                # read but not written in this update
+                incs.append((p['name'], view, node, 0))
+                continue
             inc = 1 << bit
             bit += 1
             put(update, view, inc)
@@ -78,6 +98,8 @@ def run_case(spec):
     res = Result()
     labs = hier.labels(spec)
     res.label(*labs)
+    if spec.get('omit'):
+        res.label('partial_update')
     res.nontrivial = bool(labs & {'dotdot', 'split', 'rename', 'glob',
                                   'alias.same_process', 'glob.subtopology'})
     ctx = kit.Context()
